@@ -39,7 +39,7 @@ out = ["Every change below was produced by an independent sub-agent that was giv
        "the agent's note and `meta.json` (what it needs to manifest, what I ran, verdicts) are kept under `/verif/seeded/<id>/`.", "",
        f"Summary (quick tier): {len(rows)} confirmed changes. The check of the targeted property caught {caught_own} at the first measurement, "
        f"{caught_after} more only after a strengthening made because of the miss (marked in the table), and does not catch {missed_own} "
-       f"({', '.join('`'+x+'`' for x in special)}; each explained in its row: one is no longer a violation at HEAD because a later repair removed the second site it needed; the others act only in the territory of a neighbouring property, which catches them - outputs above 4 GiB (C13) or a sink that takes short writes (C10)). "
+       f"({', '.join('`'+x+'`' for x in special)}; each explained in its row: one is no longer a violation at HEAD because a later repair removed the second site it needed; one acts only after a sink error, where its property promises nothing, and was overwritten by a later repair; the others act only in the territory of a neighbouring property, which catches them - outputs above 4 GiB (C13) or a sink that takes short writes (C10)). "
        "Several strengthenings were made from the agents' "
        "descriptions *before* measuring the previous version; those rows say so and are counted as caught, not as 'caught after a miss'.", "",
        "| change | targets | files | what it is | verdicts | strengthening made because of it |", "|---|---|---|---|---|---|"] + rows
